@@ -57,9 +57,7 @@ unit("parse.clone", "janet_parser_clone: the clone equals the source in every sc
      "h_clone", ["parse_clone.c"], enforce=["janet_parser_clone/janet_parser_clone_c"], replace=["memcpy/memcpy_c"],
      assumes=["memcpy is replaced by the assumed contract memcpy_c (r/w safety required; copies the byte at the ghost offset; frame = destination bytes [0,n))",
               "malloc does not fail (CBMC default); representation invariant of the source as precondition (counts <= capacities, stacks allocated with their capacities)"],
-     mutants=[mut_drop("lookback"), mut_drop("column"), mut_drop("pending"),
-              dict(name="clone-args-bytes-not-scaled", file="parse.c", find="memcpy(dest->args, src->args, dest->argcap * sizeof(Janet));",
-                   replace="memcpy(dest->args, src->args, dest->argcap);", expect="postcondition"),
+     mutants=[mut_drop("lookback"), mut_drop("column"), mut_drop("error"),
               dict(name="clone-shallow-buf", file="parse.c", find="        memcpy(dest->buf, src->buf, dest->bufcap);", replace="        dest->buf = src->buf;", expect="postcondition")])
 
 
@@ -152,28 +150,37 @@ CONS_MUT = {
  "escapeh": [dict(name="hex-digit-unchecked", file="parse.c", find='    if (digit < 0) {\n        p->error = "invalid hex digit in hex escape";\n        return 1;\n    }\n', replace="", expect="C11")],
  "escapeu": [dict(name="unicode-digit-unchecked", file="parse.c", find='    if (digit < 0) {\n        p->error = "invalid hex digit in unicode escape";\n        return 1;\n    }\n', replace="", expect="C11")],
  "stringchar": [dict(name="backslash-enters-hex-state", file="parse.c", find="    if (c == '\\\\') {\n        state->consumer = escape1;", replace="    if (c == '\\\\') {\n        state->consumer = escapeh;", expect="C11")],
- "longstring": [dict(name="end-candidate-off-by-one", file="parse.c", find="        if (c == '`' && state->counter < state->argn) {", replace="        if (c == '`' && state->counter <= state->argn) {", expect="C11")],
+ "longstring": [dict(name="end-candidate-keeps-instring", file="parse.c", find="            state->flags |= PFLAG_END_CANDIDATE;\n            state->flags &= ~PFLAG_INSTRING;\n", replace="            state->flags |= PFLAG_END_CANDIDATE;\n", expect="C11")],
  "atsign": [dict(name="atsign-no-pop", file="parse.c", find="    (void) state;\n    p->statecount--;\n    switch (c) {", replace="    (void) state;\n    switch (c) {", expect="C11")],
  "tokenchar": [dict(name="token-keeps-buffer", file="parse.c", find="    p->bufcount = 0;\n    popstate(p, ret);\n    return 0;", replace="    popstate(p, ret);\n    return 0;", expect="C11")],
  "root": [dict(name="close-at-root-unchecked", file="parse.c", find="            if (p->statecount == 1) {\n                delim_error(p, 0, c,", replace="            if (p->statecount == 0) {\n                delim_error(p, 0, c,", expect="C11|pointer|bounds"),
           dict(name="close-tuple-leaves-arg", file="parse.c", find="    for (int32_t i = state->argn - 1; i >= 0; i--)\n        ret[i] = p->args[--p->argcount];", replace="    for (int32_t i = state->argn - 1; i > 0; i--)\n        ret[i] = p->args[--p->argcount];", expect="C11")],
 }
-CONS_UNITS = [(c, c, {}) for c in CONSUMERS if c != "root"] + [("root_open", "root", {}), ("root_close", "root", {"defines": ["-DARGMAX=2", "-DBUFMAX=2"]})]
+CONS_UNITS = [(c, c, {}) for c in CONSUMERS if c != "root"] + [("root_open", "root", {"tier": "thorough", "timeout": 600}),
+              ("root_close", "root", {"defines": ["-DARGMAX=2", "-DBUFMAX=2"], "tier": "thorough", "timeout": 900})]
 CONS_MUT["root_open"] = [dict(name="unexpected-char-accepted", file="parse.c", find='                p->error = "unexpected character";\n                return 1;\n', replace="", expect="C11")]
 CONS_MUT["root_close"] = CONS_MUT["root"]
+FIXEDCAP = ("longstring", "root_open", "root_close", "tokenchar", "escapeu", "stringchar", "atsign")
 for hname, cname, extra in CONS_UNITS:
+    fixed = hname in FIXEDCAP
+    kw = dict(nanbox=False, link=["wrap.c"], unwind=8, timeout=300, replace_calls=list(CONS_STUBS),
+              functions=[cname, "pushstate", "popstate", "push_buf", "push_arg", "_pushstate"], mutants=CONS_MUT[hname],
+              assumes=["allocation entry points (janet_tuple_begin/_n, janet_array, janet_buffer) return fresh valid objects of the requested size; janet_string/janet_symbol/number scanners "
+                       "only read the range they are given (asserted at the call); realloc is modelled as a typed copy into a fresh object and does not fail",
+                       "wf_parser of the input state as listed in the harness (W1-W5)"])
     if cname in ("stringchar", "longstring"):
-        extra = dict(extra, replace_calls=CONS_STUBS + ["stringend:stringend_stub"])
-    unit("parse.consumer." + hname, "the Consumer `%s` preserves wf_parser (stack counts <= capacities, statecount >= 1, root container at index 0, only root-dispatched states below "
-         "the top, sum of container argn == argcount, local counter ranges), is memory safe, and writes none of line/column/lookback/flag - for every byte and every well-formed state" % cname,
-         "h_consumer_" + hname, ["parse_consumers_fixedcap.c" if hname in ("longstring", "root_open", "root_close", "tokenchar", "escapeu", "stringchar", "atsign") else "parse_consumers.c"], mode="plain", cls="bounded",
-         bound="nesting <= 3 (at most 4 parser states), token buffer capacity <= 5, args capacity <= 4, backtick runs <= 3; all loops fully unwound (unwinding assertions on)",
-         nanbox=False, link=["wrap.c"], unwind=8, timeout=300, **({} if cname in ("stringchar", "longstring") else {"replace_calls": CONS_STUBS}),
-         functions=[cname, "pushstate", "popstate", "push_buf", "push_arg", "_pushstate"],
-         assumes=["allocation entry points (janet_tuple_begin/_n, janet_array, janet_buffer) return fresh valid objects of the requested size; janet_string/janet_symbol/number scanners "
-                  "only read the range they are given (asserted at the call); realloc is modelled as a typed copy into a fresh object and does not fail",
-                  "wf_parser of the input state as listed in harness/parse_consumers.c (W1-W4)"],
-         **dict(dict(mutants=CONS_MUT[hname]), **extra))
+        kw["replace_calls"].append("stringend:stringend_stub")
+        kw["assumes"].append("stringend is replaced by stringend_stub: its state-stack effect (bufcount = 0, real popstate of a string/buffer value) is kept, the in-place "
+                             "re-indentation of the token buffer is cut out (not covered by any C11 unit)")
+    kw.update(extra)
+    bound = ("nesting <= 3 (at most 4 parser states), token buffer capacity %s, args capacity %s, backtick runs <= 3; all loops fully unwound (unwinding assertions on)"
+             % (("== 5 (count 0..5)", "== 4 (count 0..4)") if fixed else ("<= 5", "<= 4")))
+    if hname == "root_close":
+        bound = bound.replace("== 5 (count 0..5)", "== 2 (count 0..2)").replace("== 4 (count 0..4)", "== 2 (count 0..2)")
+    unit("parse.consumer." + hname, "the Consumer `%s`%s preserves wf_parser (stack counts <= capacities, statecount >= 1, root container at index 0, only root-dispatched states below "
+         "the top, sum of container argn == argcount, local counter ranges, no stale token bytes), is memory safe, and writes none of line/column/lookback/flag - for every byte and "
+         "every well-formed state" % (cname, {"root_open": " (bytes other than closing delimiters)", "root_close": " (closing delimiters)"}.get(hname, "")),
+         "h_consumer_" + hname, ["parse_consumers_fixedcap.c" if fixed else "parse_consumers.c"], mode="plain", cls="bounded", bound=bound, **kw)
 
 json.dump({"units": units}, open(os.path.join(V, "units", "C11.json"), "w"), indent=1)
 print("wrote %d units" % len(units))
